@@ -58,6 +58,8 @@ func theWorld() *dyn.World {
 			dyn.MethodSpec{Name: "Bidi", In: ".un.All", Out: ".un.All", ClientStream: true, ServerStream: true, Rule: post("/c13/bidi", "*")},
 			dyn.MethodSpec{Name: "Raw", In: ".google.api.HttpBody", Out: ".google.api.HttpBody", Rule: post("/c13/raw", "*")},
 			dyn.MethodSpec{Name: "Asset", In: ".un.All", Out: ".google.api.HttpBody", Rule: &annotations.HttpRule{Pattern: &annotations.HttpRule_Get{Get: "/c13/asset/{f_int32}"}}},
+			// a reply object shared by all calls (a cached configuration), of which the rule selects a sub-message
+			dyn.MethodSpec{Name: "Conf", In: ".un.All", Out: ".un.All", Rule: &annotations.HttpRule{Pattern: &annotations.HttpRule_Get{Get: "/c13/conf/{f_int32}"}, ResponseBody: "nest"}},
 		))
 	})
 	return world
@@ -594,9 +596,26 @@ func CheckStress(p SPlan) ([]evid.Violation, int, int) {
 	if err != nil {
 		panic(err)
 	}
+	// replies the Conf handler keeps in its own memory and returns to every caller that asks for the same k
+	// (a cached configuration): even k leave the sub-message the rule selects unset, odd k have it
+	// populated. The server may only read them. Each burst of concurrent callers gets a fresh k.
+	md := w.MsgDesc("un.All")
+	conf := make([]*dynamicpb.Message, 512)
+	for k := range conf {
+		conf[k] = dynamicpb.NewMessage(md)
+		conf[k].Set(md.Fields().ByName("f_string"), protoreflect.ValueOfString("shared"))
+		if k%2 == 1 {
+			nest := conf[k].Mutable(md.Fields().ByName("nest")).Message()
+			nest.Set(nest.Descriptor().Fields().ByName("sub_title"), protoreflect.ValueOfString("shared-conf"))
+		}
+	}
+	var bursts atomic.Int64
 	unary := func(ctx context.Context, fm string, req *dynamicpb.Message) (proto.Message, error) {
 		if strings.HasSuffix(fm, "/Raw") {
 			return req, nil
+		}
+		if strings.HasSuffix(fm, "/Conf") {
+			return conf[int(req.Get(md.Fields().ByName("f_int32")).Int())%len(conf)], nil
 		}
 		if _, _, err := verify(req); err != nil {
 			return nil, err
@@ -662,8 +681,23 @@ func CheckStress(p SPlan) ([]evid.Violation, int, int) {
 						break
 					}
 				}
-				kind := next(8)
+				kind := next(9)
 				switch kind {
+				case 8: // one reply object of the handler returned to three concurrent callers, narrowed by response_body
+					k := int(bursts.Add(1)) % len(conf)
+					want := []string{`{}`, `{"subTitle":"shared-conf"}`}[k%2]
+					var bw sync.WaitGroup
+					for j := 0; j < 3; j++ {
+						bw.Add(1)
+						go func() {
+							defer bw.Done()
+							res := drive.Serve(mux, drive.Request("GET", fmt.Sprintf("/c13/conf/%d", k), "", http.Header{}, nil, 0))
+							if got := strings.Join(strings.Fields(res.Rec.Body.String()), ""); res.Rec.Code != 200 || got != want {
+								report("shared-reply call %d: status %d body %q, want %s", id, res.Rec.Code, trunc(res.Rec.Body.Bytes()), want)
+							}
+						}()
+					}
+					bw.Wait()
 				case 0, 1, 2: // streaming echo on a random transport
 					cs := CallSpec{Transport: transports[next(len(transports))]}
 					n := 1 + next(3)
